@@ -29,6 +29,7 @@ KERNELS = {
     "apply_spans_index_of_last": {"owner": "C08"},
     "apply_spans_index_of_min": {"owner": "C08"},
     "apply_spans_index_of_max": {"owner": "C08"},
+    "_get_spans_for_2_fields_by_spans": {"owner": "C08"},
 }
 C08_NOSRC = ("apply_spans_count", "apply_spans_index_of_first", "apply_spans_index_of_last")
 
@@ -71,7 +72,16 @@ def c08_safe(sp, n):
         all(0 <= a < max(n, 1) for a in sp[:-1]) and (n > 0 or len(sp) == 1)
 
 
+def merge_safe(s0, s1):
+    """`while span1[j] < span0[i]` stays inside span1: some entry of span1 is ≥ every entry of span0 it is compared with"""
+    return not s1 or not s0 or (max(s1) >= max(s0) and all(a <= b for a, b in zip(s1, s1[1:])))
+
+
 def derive_c08(case):
+    if case.get("op") == "spans_by_spans":
+        s0, s1 = case["span0"], case["span1"]
+        return gcase("_get_spans_for_2_fields_by_spans", [arr(s0), arr(s1)], unsafe=not merge_safe(s0, s1),
+                     fuel=len(s1) + 1, _from="C08")
     if case.get("op") != "apply" or case.get("level") != "ops":
         return None
     k = C08_FN.get(case["fn"])
@@ -91,6 +101,14 @@ def random_c08(rng, n_cases):
     names = [k for k, v in KERNELS.items() if v["owner"] == "C08"]
     for t in range(n_cases):
         k = names[t % len(names)]
+        if k == "_get_spans_for_2_fields_by_spans":
+            n = rng.randrange(0, 30)
+            mk = lambda: sorted(set([0, n] + [rng.randrange(0, n + 1) for _ in range(rng.randrange(0, 8))]))  # noqa: E731
+            s0, s1 = mk(), mk()
+            if rng.random() < 0.3:                     # not over the same row count / empty / unsorted / negative
+                s1 = [rng.randrange(-3, n + 4) for _ in range(rng.randrange(0, 6))]
+            out.append(gcase(k, [arr(s0), arr(s1)], unsafe=not merge_safe(s0, s1), fuel=len(s1) + 1, _from="random"))
+            continue
         n = rng.choice([0, 1, 2, 3, rng.randrange(1, 12), rng.randrange(1, 60)])
         src = [rng.choice([0, 1, -1, 5, -7, 2 ** 40, -(2 ** 40), rng.randrange(-9, 10)]) for _ in range(n)]
         what = rng.randrange(10)
